@@ -996,6 +996,31 @@ class Interp:
                     root = ('O', 'constalloc#%d' % st.n['obj'])
                     st.mem[root] = val
                     return ('ref', root, ())
+                if 'decoded' in o:
+                    # the exporter decoded the whole allocation by layout (tables of enums with payloads or niche-encoded
+                    # Option<..>, nested tuples): build the value from that
+                    def build(d):
+                        if 'i' in d:
+                            bits_ = 1 if d['ty'] == 'bool' else (32 if d['ty'] == 'char' else int_type(d['ty'])[0])
+                            return C(bits_, d['i'] & T.mask(bits_))
+                        if 'arr' in d:
+                            return ('agg', ('array',), tuple(build(x) for x in d['arr']))
+                        if 'tup' in d:
+                            return ('agg', ('tuple',), tuple(build(x) for x in d['tup']))
+                        return ('agg', ('adt', d['adt'], d['variant'], d['vname']), tuple(build(x) for x in d['fields']))
+                    try:
+                        val = build(o['decoded'])
+                    except (KeyError, TypeError):
+                        val = None
+                    if val is not None:
+                        if not isref:
+                            return val
+                        st.n['obj'] += 1
+                        root = ('O', 'constalloc#%d' % st.n['obj'])
+                        st.mem[root] = val
+                        if o['ty'].startswith('&[') and ';' not in o['ty'] and val[1][0] == 'array':
+                            return ('slice', root, (), C(64, 0), C(64, len(val[2])))
+                        return ('ref', root, ())
                 mte = re.match(r'^&*\s*\[([\w:]+)(?:;\s*\d+)?\]$', tyname)
                 eadt = self.adts.get(mte.group(1)) if mte else None
                 if eadt and eadt['kind'] == 'enum' and all(not v.get('fields') for v in eadt['variants']) and \
@@ -1341,6 +1366,17 @@ class Interp:
                     exp = 1 if t['expected'] else 0
                     cv = st.env.const_of(c) if is_int(c) else None
                     detail = self.assert_detail(st, fr, t)
+                    split = self.table_index_split(st, fr, t) if (cv == exp and fr.visits[bb] <= self.revisit_limit) else None
+                    if split:
+                        st.events.append(('assert', akind, site, 'discharged', detail))
+                        for j, (idx_, val_) in enumerate(split):
+                            last = j == len(split) - 1
+                            s2 = st if last else st.copy()
+                            if not s2.env.assume_eq(idx_, val_):
+                                continue
+                            s2.decisions.append((O(1, 'eq', idx_, C(idx_[1], val_)), 'table', site))
+                            yield from self.exec_from(fr if last else fr.copy(), t['target'], s2)
+                        return
                     if cv is not None:
                         if cv == exp:
                             st.events.append(('assert', akind, site, 'discharged', detail))
@@ -1436,6 +1472,51 @@ class Interp:
                 return True
             return True
         return True
+
+    def table_index_split(self, st, fr, t):
+        """A bounds check that guards an index into a small constant table (`const PAGES: [Kind; 16]` indexed by
+        `addr >> 12`): -> [(index term, value)] for a case split over the feasible index values, or None.  The split makes
+        the looked-up element concrete on each path (and refines the index expression's operands)."""
+        if t.get('akind') != 'bounds' or 'index' not in t or 'len' not in t:
+            return None
+        ln = t['len']
+        if ln.get('k') != 'const' or not isinstance(ln.get('val'), int) or not 2 <= ln['val'] <= 32:
+            return None
+        io = t['index']
+        if io.get('k') not in ('copy', 'move') or io['place']['proj']:
+            return None
+        il = io['place']['local']
+        idx = self.operand(st, fr, io)
+        if not is_int(idx) or st.env.const_of(idx) is not None:
+            return None
+        tgt = fr.fn['blocks'][t['target']]
+        arr_local = None
+        for s_ in tgt['stmts'][:3]:
+            if s_['k'] != 'assign':
+                continue
+            rv = s_['rv']
+            pl = rv['op'].get('place') if rv['k'] == 'use' and rv['op']['k'] in ('copy', 'move') else None
+            if pl and len(pl['proj']) == 1 and pl['proj'][0].get('k') == 'index' and pl['proj'][0].get('local') == il:
+                arr_local = pl['local']
+                break
+        if arr_local is None:
+            return None
+        try:
+            root, path, view = self.resolve_place(st, fr, {'local': arr_local, 'proj': []})
+            arr = self.read(st, root, path)
+        except Abort:
+            return None
+
+        def constant(v):
+            return v is not None and (v[0] == 'c' or (v[0] == 'agg' and all(constant(x) for x in v[2])))
+        if arr is None or arr[0] != 'agg' or arr[1][0] != 'array' or len(arr[2]) != ln['val'] or not constant(arr):
+            return None
+        if all(is_int(x) for x in arr[2]):
+            return None         # integer tables stay symbolic (an element symbol); enum / tuple tables need the split
+        if st.n.get('tsplit', 0) >= 3:
+            return None         # at most three nested splits on one path (bounded blow-up)
+        st.n['tsplit'] = st.n.get('tsplit', 0) + 1
+        return [(idx, i) for i in range(ln['val']) if st.env.possible(idx, i)]
 
     def assert_detail(self, st, fr, t):
         try:
@@ -2776,6 +2857,25 @@ def m_size_of(ip, st, fr, t, args, site, dest_ty):
     yield (st.fresh(64, 'size_of'), st, 'ok', None)
 
 
+def m_size_of_val(ip, st, fr, t, args, site, dest_ty):
+    """mem::size_of_val(&x) for a sized x: the size of its type"""
+    g = (t.get('generics') or '').strip()
+    ty = g[1:-1].strip() if g.startswith('[') and g.endswith(']') else g
+    adt = ip.adts.get(ty)
+    if adt and adt.get('size') is not None:
+        yield (C(64, adt['size']), st, 'ok', None)
+        return
+    it = int_type(ty)
+    if it:
+        yield (C(64, max(1, it[0] // 8)), st, 'ok', None)
+        return
+    a = args[0] if args else None
+    if a is not None and a[0] == 'slice' and is_int(a[4]):
+        yield (a[4], st, 'ok', None)         # a byte view: its length
+        return
+    yield (st.fresh(64, 'size_of_val'), st, 'ok', None)
+
+
 def m_from_raw_parts(ip, st, fr, t, args, site, dest_ty):
     """slice::from_raw_parts(_mut)(ptr, len): a view of len elements starting at the pointee"""
     ptr, ln = args
@@ -2836,6 +2936,95 @@ def m_option_map_or(ip, st, fr, t, args, site, dest_ty):
         if inner is None:
             inner = st.fresh(0, 'some')
         yield from call_closure(ip, st, fr, clo, [inner], site)
+
+
+_R_OK = ('adt', 'std::result::Result', 0, 'Ok')
+_R_ERR = ('adt', 'std::result::Result', 1, 'Err')
+
+
+def two_cases(ip, st, v, names, site):
+    """case split of an Option (names = ('None', 'Some')) or Result (('Ok', 'Err')) value:
+    yields (variant name, payload or None, state); the last case reuses `st`"""
+    if v is not None and v[0] == 'agg' and v[1][0] == 'adt' and v[1][3] in names:
+        yield (v[1][3], v[2][0] if v[2] else None, st)
+        return
+    d = ip.discriminant(st, v, 64) if v is not None else None
+    for k, nm in enumerate(names):
+        s_ = st.copy() if k == 0 else st
+        if d is not None and is_int(d):
+            if not s_.env.assume_eq(d, k):
+                continue
+            s_.decisions.append((d, nm, site))
+        payload = None
+        if nm != 'None':
+            payload = ip.project(s_, ip.project(s_, v, ('d', k, nm)), ('f', 0, '0', '', '')) if v is not None else None
+            if payload is None:
+                payload = s_.fresh(0, nm.lower())
+        yield (nm, payload, s_)
+
+
+def m_result_ok(ip, st, fr, t, args, site, dest_ty):
+    for nm, pay, s_ in two_cases(ip, st, args[0], ('Ok', 'Err'), site):
+        yield ((('agg', SOME, (pay,)) if nm == 'Ok' else ('agg', NONE, ())), s_, 'ok', None)
+
+
+def m_result_err(ip, st, fr, t, args, site, dest_ty):
+    for nm, pay, s_ in two_cases(ip, st, args[0], ('Ok', 'Err'), site):
+        yield ((('agg', SOME, (pay,)) if nm == 'Err' else ('agg', NONE, ())), s_, 'ok', None)
+
+
+def m_result_map_or(ip, st, fr, t, args, site, dest_ty):
+    res, default, clo = args
+    if clo is None or clo[0] != 'agg' or clo[1][0] != 'closure':
+        yield from ip.unknown_external(st, t['resolved'] or t['callee'], args, site, dest_ty, t)
+        return
+    for nm, pay, s_ in two_cases(ip, st, res, ('Ok', 'Err'), site):
+        if nm == 'Ok':
+            yield from call_closure(ip, s_, fr, clo, [pay], site)
+        else:
+            yield (default, s_, 'ok', None)
+
+
+def m_result_unwrap_or(ip, st, fr, t, args, site, dest_ty):
+    for nm, pay, s_ in two_cases(ip, st, args[0], ('Ok', 'Err'), site):
+        yield ((pay if nm == 'Ok' else args[1]), s_, 'ok', None)
+
+
+def m_option_unwrap_or(ip, st, fr, t, args, site, dest_ty):
+    for nm, pay, s_ in two_cases(ip, st, args[0], ('None', 'Some'), site):
+        yield ((pay if nm == 'Some' else args[1]), s_, 'ok', None)
+
+
+def m_option_ok_or(ip, st, fr, t, args, site, dest_ty):
+    for nm, pay, s_ in two_cases(ip, st, args[0], ('None', 'Some'), site):
+        yield ((('agg', _R_OK, (pay,)) if nm == 'Some' else ('agg', _R_ERR, (args[1],))), s_, 'ok', None)
+
+
+def m_option_unwrap_or_else(ip, st, fr, t, args, site, dest_ty):
+    """Option::unwrap_or_else(opt, closure): the payload, or the closure's result when the option is None"""
+    opt, clo = args
+    if clo is None or clo[0] != 'agg' or clo[1][0] != 'closure' or opt is None:
+        yield from ip.unknown_external(st, t['resolved'] or t['callee'], args, site, dest_ty, t)
+        return
+    if opt[0] == 'agg' and opt[1][0] == 'adt' and opt[1][3] in ('Some', 'None'):
+        if opt[1][3] == 'Some':
+            yield (opt[2][0], st, 'ok', None)
+        else:
+            yield from call_closure(ip, st, fr, clo, [], site)
+        return
+    d = ip.discriminant(st, opt, 64)
+    s2 = st.copy()
+    if not is_int(d) or s2.env.assume_eq(d, 1):
+        if is_int(d):
+            s2.decisions.append((d, 'Some', site))
+        inner = ip.project(s2, ip.project(s2, opt, ('d', 1, 'Some')), ('f', 0, '0', '', ''))
+        if inner is None:
+            inner = s2.fresh(type_bits(dest_ty), 'some')
+        yield (inner, s2, 'ok', None)
+    if not is_int(d) or st.env.assume_eq(d, 0):
+        if is_int(d):
+            st.decisions.append((d, 'None', site))
+        yield from call_closure(ip, st, fr, clo, [], site)
 
 
 def m_option_is(which):
@@ -2952,9 +3141,19 @@ STD_MODELS = {
     'std::option::Option::<T>::and_then': m_and_then,
     'std::option::Option::<T>::map': m_option_map,
     'std::option::Option::<T>::map_or': m_option_map_or,
+    'std::option::Option::<T>::unwrap_or_else': m_option_unwrap_or_else,
+    'std::option::Option::<T>::unwrap_or': m_option_unwrap_or,
+    'std::option::Option::<T>::ok_or': m_option_ok_or,
+    'std::result::Result::<T, E>::ok': m_result_ok,
+    'std::result::Result::<T, E>::err': m_result_err,
+    'std::result::Result::<T, E>::map_or': m_result_map_or,
+    'std::result::Result::<T, E>::unwrap_or': m_result_unwrap_or,
     'core::bool::<impl bool>::then': m_bool_then,
     'std::result::Result::<T, E>::map_err': m_result_map_err,
     'std::mem::size_of': m_size_of,
+    'std::mem::size_of_val': m_size_of_val,
+    'std::ptr::const_ptr::<impl *const T>::cast': m_identity,
+    'std::ptr::mut_ptr::<impl *mut T>::cast': m_identity,
     'std::slice::from_raw_parts_mut': m_from_raw_parts,
     'std::slice::from_raw_parts': m_from_raw_parts,
     'std::option::Option::<T>::is_some': m_option_is('Some'),
